@@ -158,7 +158,7 @@ def predicates(ctx, desc, cname, method, name_hint, x, steps, seen):
 def run(ctx):
     import numdifftools as nd
     from numdifftools import finite_difference as fdm
-    proof_stage(ctx, 'Props/C05.v', extra_targets=['Model/PointsFloat.vo'])
+    proof_stage(ctx, ['Props/C05.v', 'Props/C05b.v'], extra_targets=['Model/PointsFloat.vo'])
     trval.run(ctx)
     rng = ctx.rng(1)
     sr, si, sq2 = float(fdm._SQRT_J.real), float(fdm._SQRT_J.imag), float(np.sqrt(2.0))
